@@ -41,6 +41,7 @@ type e2eCase struct {
 	Cell  httpx.Cell `json:"cell"`
 	Cut   string     `json:"cut"` // whole | bytewise | lines
 	Fill  bool       `json:"fillers"`
+	Hold  bool       `json:"handler_held"` // a valid request whose handler is still running when the malformed bytes arrive
 }
 
 func genE2E(r *h.Run, idx int) e2eCase {
@@ -53,6 +54,7 @@ func genE2E(r *h.Run, idx int) e2eCase {
 	}
 	c.Cut = []string{"whole", "bytewise", "lines"}[rng.Intn(3)]
 	c.Fill = c.Cell.IOMod == nbhttp.IOModMixed && (idx/18)%2 == 0
+	c.Hold = (idx/54)%2 == 1 || idx%5 == 4
 	return c
 }
 
@@ -79,12 +81,21 @@ var e2eProgress int64
 func runE2E(r *h.Run, c e2eCase) {
 	var mu sync.Mutex
 	served := map[string][]string{} // remote addr -> paths the handler ran for
+	gates := map[string]chan struct{}{}
 	mux := http.NewServeMux()
 	mux.HandleFunc("/", func(w http.ResponseWriter, rq *http.Request) {
 		atomic.AddInt64(&e2eProgress, 1)
 		mu.Lock()
 		served[rq.RemoteAddr] = append(served[rq.RemoteAddr], rq.URL.Path)
+		g := gates[rq.RemoteAddr]
 		mu.Unlock()
+		if rq.URL.Path == "/hold" && g != nil {
+			// the connection's job queue stays busy while the malformed bytes arrive
+			select {
+			case <-g:
+			case <-time.After(5 * time.Second):
+			}
+		}
 		_, _ = w.Write([]byte("ok:" + rq.URL.Path))
 	})
 	eng := nbhttp.NewEngine(c.Cell.Config(mux))
@@ -158,6 +169,14 @@ func runE2E(r *h.Run, c e2eCase) {
 			}
 		}()
 		wire := sc.Req + "GET /after HTTP/1.1\r\nHost: x\r\n\r\n"
+		var gate chan struct{}
+		if c.Hold {
+			gate = make(chan struct{})
+			mu.Lock()
+			gates[local] = gate
+			mu.Unlock()
+			wire = "GET /hold HTTP/1.1\r\nHost: x\r\n\r\n" + wire
+		}
 		switch c.Cut {
 		case "bytewise":
 			for i := 0; i < len(wire); i++ {
@@ -177,6 +196,12 @@ func runE2E(r *h.Run, c e2eCase) {
 			}
 		default:
 			_, _ = nc.Write([]byte(wire))
+		}
+		if gate != nil {
+			// everything is on its way: let the engine read it while the handler is still held
+			time.Sleep(3 * time.Millisecond)
+			close(gate)
+			r.Count("e2e_scenarios_with_a_held_handler", 1)
 		}
 		ended := false
 		select {
